@@ -45,9 +45,7 @@ mutual
       else
         let al := lang.aliasAt pid si
         let alNamed := al != 0 && (lang.symMeta al).named
-        let f := match directField lang pid si with
-          | some df => some df
-          | none => inherited
+        let f := firstSome (directField lang pid si) inherited
         writeNode lang c al alNamed f false ++ writeKids lang rest pid (si + 1) inherited
 end
 
